@@ -45,17 +45,11 @@ def tpostingOf (j : Json) : TPosting :=
   ⟨virtOf (jget j "kind"), jhex j "acct", optOf tamountOf (jget j "amt"),
    optOf (fun c => (jbool c "total", tamountOf c)) (jget j "cost"), arrOf asStr (jget j "risky")⟩
 
-/-- what the code makes of a notation (the model of parseAmount's number handling). -/
-def codeValue (n : G.Number) : Option Rat := (Num.quantity n.neg (G.render n)).map Dec.toRat
-
 /-- the rational transaction the text was written from; -/
 def truthTx (ps : List TPosting) : RTx :=
   let v (n : G.Number) : Rat := G.value n
   ps.map fun p => ⟨p.kind, p.account, p.amount.map fun a => ⟨v a.n, a.c⟩,
     p.cost.map fun (t, a) => ⟨t, v a.n, a.c⟩⟩
-
-def numbersOf (ps : List TPosting) : List G.Number :=
-  ps.flatMap fun p => (p.amount.map (·.n)).toList ++ (p.cost.map (·.2.n)).toList
 
 /-! ### encoding -/
 
